@@ -52,10 +52,6 @@ func Run(c *verdict.Ctx) int {
 		idx, _ := strconv.Atoi(os.Getenv(envCase))
 		runChild(scenarioFor(c, idx), os.Getenv(envOut))
 		return 0
-	case "tierb":
-		idx, _ := strconv.Atoi(os.Getenv(envCase))
-		runTierBChild(c, idx, os.Getenv(envOut))
-		return 0
 	}
 
 	c.Level = "exploration"
@@ -89,7 +85,7 @@ func Run(c *verdict.Ctx) int {
 		return c.Finish(0)
 	}
 
-	n := c.N(48, 1500)
+	n := c.N(128, 5000)
 	par := 16
 	if v, err := strconv.Atoi(os.Getenv("VERIF_C14_PAR")); err == nil && v > 0 {
 		par = v
@@ -139,9 +135,9 @@ func Run(c *verdict.Ctx) int {
 	if c.Counter("ApplySnapshotChunk calls") == 0 || c.Counter("outcome: sync returned a state") == 0 {
 		c.HarnessError("observed nothing: no chunk reached the app or no restore ever succeeded")
 	}
-	min := 12
+	min := 30
 	if c.Thorough() {
-		min = 300
+		min = 1000
 	}
 	if os.Getenv("VERIF_C14_N") != "" {
 		min = 2
@@ -274,6 +270,9 @@ func runCase(c *verdict.Ctx, dir string, idx int, verbose bool) {
 		}
 		c.Inconclusive("child died: " + site)
 		fmt.Fprintf(os.Stderr, "C14 case %d: child died (%s)\n%s\n", idx, site, tail)
+	}
+	if j.overflow {
+		c.Inconclusive("chunk queue model: too many interleavings to enumerate")
 	}
 	for _, s := range j.internal {
 		c.HarnessError("case %d: %s", idx, s)
